@@ -97,7 +97,7 @@ def step (st : State) (w : List String) : State × String :=
     | some ck =>
       let replay := bflag (g "replay")
       let i : RLIn := { udp := g "proto" == some "udp", ck := ck, replay := replay,
-                        exempt := st.rlRate == 0 || bflag (g "lo") }
+                        exempt := st.rlRate == 0 || bflag (g "lo"), otherVersion := (g "ver").isSome && g "ver" != some "0" }
       let (sw, ow) := rlWire st.rlWire i
       if replay then ({ st with rlWire := sw }, s!"w={rlStr ow} m=-")
       else
@@ -234,8 +234,11 @@ def step (st : State) (w : List String) : State × String :=
     let pre := (g "pre").getD "ok"
     let q : Req := { rd := pre != "nord", hasECS := pre == "ecs", cd := bflag (g "cd"), typeKnown := pre != "utype",
                      classKnown := pre != "uclass" }
-    let l : Lookups := { exactHit := ex, cut := cut, cutWire := cut, denial := false, failure := fk, failureWire := fk,
-                         witnessHolds := true, denialImpossible := st.denialImpossible }
+    -- den=1: a cached NSEC3 proof covers the name — synthesis succeeds, and no failure recorded over
+    -- that zone carries a witness that holds
+    let den := bflag (g "den")
+    let l : Lookups := { exactHit := ex, cut := cut, cutWire := cut, denial := den, failure := fk, failureWire := fk,
+                         witnessHolds := !den, denialImpossible := st.denialImpossible }
     -- the signed proof of a cut does not fit a DO client's 512-octet UDP buffer (the
     -- stripped DO=0 template is a lone SOA and fits): the cut's byte serve declines on size
     let cutFits := !(bflag (g "small") && bflag (g "do"))
